@@ -13,7 +13,7 @@ for P in "$@"; do
   if ! (cd "$D" && patch -p1 -s --no-backup-if-mismatch < "/verif/$P"); then echo "$P NOAPPLY"; rm -rf "$D"; RC=1; continue; fi
   if ! (cd "$D" && go build ./... && go test -vet=off -count=1 ./... >/dev/null 2>&1); then echo "$P SUITE-FAILS"; rm -rf "$D"; RC=1; continue; fi
   printf '%s\n' C01 C02 C03 C04 C05 C06 C07 C08 C09 C10 C11 C12 C13 C14 C15 C16 C17 C18 C19 C20 | \
-    xargs -P 5 -I{} sh -c '/verif/bin/stackcheck -verif /verif -repo "$0" -prop {} -evidence "$0/ev-{}.json" > "$0/out-{}.txt" 2>&1; echo $? > "$0/rc-{}.txt"' "$D"
+    xargs -P 5 -I{} sh -c '${STACKCHECK:-/verif/bin/stackcheck} -verif /verif -repo "$0" -prop {} -evidence "$0/ev-{}.json" > "$0/out-{}.txt" 2>&1; echo $? > "$0/rc-{}.txt"' "$D"
   bad=""
   for p in C01 C02 C03 C04 C05 C06 C07 C08 C09 C10 C11 C12 C13 C14 C15 C16 C17 C18 C19 C20; do
     if [ "$(cat $D/rc-$p.txt)" != "0" ]; then bad="$bad $p"; grep -E '\[(violated|undecided)\]' "$D/out-$p.txt" | head -3 | cut -c1-300 | sed "s#^#   $p: #"; fi
